@@ -115,12 +115,18 @@ def with_timeout(fn, secs=3):
     old_h = signal.signal(signal.SIGALRM, h)
     old = signal.setitimer(signal.ITIMER_REAL, secs)[0]
     t0 = time.time()
+    res = {"other": "Timeout"}
     try:
-        return fn()
+        try:
+            res = fn()
+        finally:
+            # the timer may fire between the end of fn() and its disarming: a late _Timeout must not escape
+            signal.setitimer(signal.ITIMER_REAL, 0)
     except _Timeout:
-        return {"other": "Timeout"}
+        signal.setitimer(signal.ITIMER_REAL, 0)
     finally:
         signal.setitimer(signal.ITIMER_REAL, 0)
         signal.signal(signal.SIGALRM, old_h)
         if old > 0:
             signal.setitimer(signal.ITIMER_REAL, max(0.01, old - (time.time() - t0)))
+    return res
